@@ -43,6 +43,7 @@ type ClientReg struct {
 	Skew        time.Duration
 	IDTLifetime time.Duration
 	Assertion   bool                        // IDTokenUserinfoClaimsAssertion
+	MethodUnset bool                        // AuthMethod() answers the empty string (no method registered: client_secret_basic by default)
 	Keys        map[string]*jose.JSONWebKey // public keys by kid (private_key_jwt / jwt-bearer)
 	ExtraScopes []string
 }
@@ -69,6 +70,9 @@ func (c *client) AuthMethod() oidc.AuthMethod {
 		return oidc.AuthMethodNone
 	case "pkjwt":
 		return oidc.AuthMethodPrivateKeyJWT
+	}
+	if c.r.MethodUnset {
+		return ""
 	}
 	return oidc.AuthMethodBasic
 }
